@@ -362,3 +362,8 @@ where
         res.data.rotate_right(k_lo);
     }
 }
+
+#[cfg(kani)]
+mod verif_kani {
+    include!(concat!(env!("POULPY_VERIF_KX"), "/bin_fhe/lut.rs"));
+}
